@@ -459,6 +459,19 @@ func checkC02() fw.Check {
 											sc := scenario{tag: fmt.Sprintf("%s dest@%d rep%d noise%v", id, dp, rep, noise), v: v, win: w, b: b, mode: mode,
 												model: func(e *simEnv) *pathModel {
 													m := pathFor(e, fm, 1, w, dp, c.Rng, noise)
+													if v.Proto == "sack" && noise && e.peer != nil {
+														// the target retransmits its SYN-ACK (it has not seen the handshake's last ACK yet): a segment
+														// of the probed connection that answers no probe - skipped, the run goes on
+														prev := m.extra
+														m.extra = func(e *simEnv, p *refmatch.Probe) {
+															if prev != nil {
+																prev(e, p)
+															}
+															if p.TTL == w.first {
+																e.inject(e.peer.SynAckBytes(e.local, e.lport), "chatter:dup-synack", p, oddUS(2*time.Millisecond))
+															}
+														}
+													}
 													if rep%2 == 1 && !v.Serial && m.dist > 0 {
 														// the destination's replies overtake each other: its answer to the probe that reached it
 														// first (the true distance) arrives after its answers to the next probes
